@@ -721,3 +721,19 @@ Proof.
   apply X in Q as [Q1 Q2]. rewrite E in Q1. inversion Q1; subst q.
   rewrite stale_from_end_of_next_period in Q2; auto; try discriminate; try lia.
 Qed.
+
+Lemma prevote_lifetime H n s v p :
+  ranges s -> (p_submit p + 2 * vp s < two63)%Z -> prevotes s v = Some p ->
+  prevotes (snd (step H n s ((p_submit p / vp s + 1) * vp s - 1)%Z EndBlock)) v = Some p /\
+  prevotes (snd (step H n s ((p_submit p / vp s + 2) * vp s - 1)%Z EndBlock)) v = None.
+Proof.
+  intros R B E. split.
+  - apply prevote_survives_own_period_end; auto. destruct R as [V _]. lia.
+  - apply prevote_dropped_next_period_end; auto.
+Qed.
+
+Lemma period_exact vp h sb :
+  (0 < vp)%Z -> (0 <= h < two63)%Z -> (0 <= sb < two63)%Z ->
+  (period_ok vp h sb = true <-> (h / vp - sb / vp = 1)%Z) /\
+  (period_ok vp h sb = true <-> ((sb / vp + 1) * vp <= h < (sb / vp + 2) * vp)%Z).
+Proof. intros V Rh Rs. split; [apply period_ok_spec|apply period_ok_window]; assumption. Qed.
